@@ -1077,6 +1077,13 @@ func (t *treaddir) handle(cs *connState) message {
 	}
 	defer ref.DecRef()
 
+	// The reply (header, count and entries) has to fit in the negotiated
+	// message size: rreaddir.encode keeps the whole entries that fit in
+	// Count bytes, so limit Count accordingly.
+	if msize := atomic.LoadUint32(&cs.messageSize); msize > headerLength+4 && t.Count > msize-(headerLength+4) {
+		t.Count = msize - (headerLength + 4)
+	}
+
 	var entries []Dirent
 	if err := ref.safelyRead(func() (err error) {
 		// Don't allow reading deleted directories.
